@@ -366,6 +366,15 @@ def ValidCodes (ops : List Op) : Prop := ∀ n, Op.writeHeader n ∈ ops → val
 def validCodesB (ops : List Op) : Bool :=
   ops.all (fun o => match o with | .writeHeader n => validCode n | _ => true)
 
+/-- the status the handler fixed (if any) is one net/http accepts. Weaker than `ValidCodes`: WriteHeader calls after
+the status is fixed are ignored by net/http and by both wrappers, whatever their code. -/
+def EffCodeOK (ops : List Op) : Prop := ∀ n, wroteStatus ops = some n → validCode n = true
+
+/-- the handler fixes a status net/http refuses (`WriteHeader(0)`, `WriteHeader(1000)`): against the raw writer
+that call panics; the strict wrapper records the code and lets the handler go on -/
+def badCode (ops : List Op) : Bool :=
+  match wroteStatus ops with | some n => !validCode n | none => false
+
 /-- the handler does not panic -/
 def NoPanic (ops : List Op) : Prop := Op.panic ∉ ops
 
@@ -399,6 +408,9 @@ structure SpecOut where
   panicked : Bool
   /-- when present: the complete client state is prescribed (transparent pass-through / own answer) -/
   full : Option Client
+  /-- a dead writer with nothing on the wire is acceptable as well (strict mode, the handler fixed a status code
+  net/http refuses: its response is no HTTP response; the client must be shielded from it one way or the other) -/
+  orDead : Bool
   deriving DecidableEq, Repr
 
 def spec (cfg : Cfg) (env : Env) (ops : List Op) : SpecOut :=
@@ -406,15 +418,18 @@ def spec (cfg : Cfg) (env : Env) (ops : List Op) : SpecOut :=
   if env.routeFound && env.reqOK then
     if cfg.strict then
       -- a handler that panics never had its response validated: none of it may reach the client
-      if panics ops then ⟨true, ⟨200, []⟩, [], true, none⟩
-      else if respValid env ops then ⟨true, ⟨(handlerStatus env.server ops).getD 200, written ops⟩, [], false, none⟩
+      if panics ops then ⟨true, ⟨200, []⟩, [], true, none, false⟩
+      -- a status code net/http refuses: never delivered — the server-error answer, or a dead writer
+      else if badCode ops then ⟨true, (runDirect c0 (cfg.errOps .responseInvalid)).seen, [.responseInvalid],
+            (runDirect c0 (cfg.errOps .responseInvalid)).panicked, none, true⟩
+      else if respValid env ops then ⟨true, ⟨(handlerStatus env.server ops).getD 200, written ops⟩, [], false, none, false⟩
       else ⟨true, (runDirect c0 (cfg.errOps .responseInvalid)).seen, [.responseInvalid],
-            (runDirect c0 (cfg.errOps .responseInvalid)).panicked, none⟩
-    else ⟨true, (runDirect c0 ops).seen, [], (runDirect c0 ops).panicked, some (runDirect c0 ops)⟩
+            (runDirect c0 (cfg.errOps .responseInvalid)).panicked, none, false⟩
+    else ⟨true, (runDirect c0 ops).seen, [], (runDirect c0 ops).panicked, some (runDirect c0 ops), false⟩
   else
     let code := if env.routeFound then ErrCode.requestInvalid else ErrCode.cannotFindRoute
     let c := runDirect c0 (cfg.errOps code)
-    ⟨false, c.seen, [code], c.panicked, some c⟩
+    ⟨false, c.seen, [code], c.panicked, some c, false⟩
 
 def Meets (o : Outcome) (s : SpecOut) : Prop :=
   o.handlerRan = s.handlerRan ∧ o.client.seen = s.seen ∧ o.errCalls = s.errCalls ∧
@@ -423,6 +438,20 @@ def Meets (o : Outcome) (s : SpecOut) : Prop :=
 def meetsB (o : Outcome) (s : SpecOut) : Bool :=
   decide (o.handlerRan = s.handlerRan) && decide (o.client.seen = s.seen) && decide (o.errCalls = s.errCalls) &&
   decide (o.client.panicked = s.panicked) && (match s.full with | some c => decide (o.client = c) | none => true)
+
+/-- the handler ran, the client's writer is dead and nothing at all is on the wire; ErrFunc was not called -/
+def Dead (o : Outcome) : Prop :=
+  o.handlerRan = true ∧ o.client.seen = ⟨200, []⟩ ∧ o.client.info = [] ∧ o.client.sent = [] ∧
+  o.client.panicked = true ∧ o.errCalls = []
+
+def deadB (o : Outcome) : Bool :=
+  o.handlerRan && decide (o.client.seen = ⟨200, []⟩) && decide (o.client.info = []) && decide (o.client.sent = []) &&
+  o.client.panicked && decide (o.errCalls = [])
+
+/-- the total reading of the spec: what it prescribes, or — where it says so — a dead writer -/
+def MeetsT (o : Outcome) (s : SpecOut) : Prop := Meets o s ∨ (s.orDead = true ∧ Dead o)
+
+def meetsTB (o : Outcome) (s : SpecOut) : Bool := meetsB o s || (s.orDead && deadB o)
 
 /-- spec of the older handler: request-only gate, then transparent -/
 def vspec (encOps : ReqFail → List Op) (fail : ReqFail) (ops : List Op) (server : Bool := false) : VOutcome :=
@@ -517,7 +546,7 @@ def interleaveStrict : List Bool → (Strict × List Op) → (Strict × List Op)
 request alone -/
 def MeetsSeq (cfg : Cfg) : List Req → List Outcome → Prop
   | [], [] => True
-  | r :: rs, o :: os => Meets o (spec cfg r.env r.ops) ∧ MeetsSeq cfg rs os
+  | r :: rs, o :: os => MeetsT o (spec cfg r.env r.ops) ∧ MeetsSeq cfg rs os
   | _, _ => False
 
 end KinModel.Middleware
